@@ -232,6 +232,23 @@ def independent_rows(ctx):
                                  % (s_.idx, float(r['flux']), cat['flux'].unit, ss, bmaj, bmin, want))
                     break
             ctx.count('independent_jy_per_beam')
+            # the caller's metadata dictionary edited between two catalogs (another pixel scale, another data unit):
+            # the second catalog is that of the edited metadata
+            mdd = {'data_unit': u.Jy, 'spatial_scale': 2 * u.arcsec}
+            with warnings.catch_warnings():
+                warnings.simplefilter('ignore')
+                c1 = pp_catalog(d, mdd, fields=['major_sigma', 'flux'], verbose=False)
+                if rng.random() < 0.5:
+                    mdd['spatial_scale'] = 2 * u.arcmin
+                else:
+                    mdd['data_unit'] = u.mJy
+                c2 = pp_catalog(d, mdd, fields=['major_sigma', 'flux'], verbose=False)
+                c3 = pp_catalog(d, dict(mdd), fields=['major_sigma', 'flux'], verbose=False)
+            for f in ('major_sigma', 'flux'):
+                if str(c2[f].unit) != str(c3[f].unit) or not np.allclose(np.asarray(c2[f], dtype=float), np.asarray(c3[f], dtype=float), rtol=1e-12, atol=0, equal_nan=True):
+                    fails.append('column %s of a catalog made after the metadata dictionary was edited to %s: %s %s; with a new dictionary of the same content: %s %s'
+                                 % (f, {k_: str(v_) for k_, v_ in mdd.items()}, list(c2[f])[:3], c2[f].unit, list(c3[f])[:3], c3[f].unit))
+            ctx.count('metadata_edited_between_catalogs')
         except Exception as e:
             fails.append('raised %r' % (e,))
         ctx.case_done(None, ('independent', it))
